@@ -14,8 +14,9 @@
 //	          at the end),
 //	      (b) the trace is written to a Coq case file: the model QueryLife.step must predict
 //	          every observed table / result code / watcher count.
-//	(2) known-defect stream (separate): cancel / delete of a waiting query, the watcher
-//	    of a cancelled query, a cancel on a full state channel (own process, with timeout).
+//	(2) regression streams of the repaired defects (separate): cancel / delete of a waiting
+//	    query, the watcher of a cancelled query, a cancel on a full state channel (own
+//	    process, with timeout); the classes are listed as fixed, a recurrence is a VIOLATION.
 //	(3) end-to-end: hundreds of short real queries over a small ingested data set with
 //	    cancels at random points and MAX_RUNNING_QUERIES = 2; afterwards both tables must be
 //	    empty and the goroutine population is compared with the baseline (observed only).
